@@ -326,6 +326,21 @@ func TestGenerated(t *testing.T) {
 		if msg := check(base, u); msg != "" {
 			t.Fatalf("%s", msg)
 		}
+		// a result is the caller's to keep: later calls must not change it
+		if rapid.IntRange(0, 3).Draw(t, "keepResult") == 0 {
+			kept := fsutil.ResolveUrlPath(base, u)
+			copyOfKept := strings.Clone(kept)
+			for i, n := 0, rapid.IntRange(1, 4).Draw(t, "laterCalls"); i < n; i++ {
+				b2, u2 := genBase().Draw(t, "laterBase"), genURL().Draw(t, "laterUrl")
+				if msg := check(b2, u2); msg != "" {
+					t.Fatalf("%s", msg)
+				}
+			}
+			if kept != copyOfKept {
+				t.Fatalf("ResolveUrlPath(%q, %q) returned %q; after later calls with other arguments that same string reads %q", base, u, copyOfKept, kept)
+			}
+			ev.Label("result_kept_across_later_calls")
+		}
 		if hasDotDot(u) {
 			ev.Label("gen:dotdot")
 		}
